@@ -147,6 +147,9 @@ func readerStacks() map[string]string {
 // "inconclusive" already)
 var hangs int
 
+// culpritHangs counts deadlines at which something was stuck inside go9p (violations)
+var culpritHangs int
+
 var kinds = []string{"walk", "open", "create", "read", "write", "stat", "wstat", "clunk", "remove", "attach", "flushunknown"}
 
 func build(kind string, fid uint32) (m *ref9p.Msg, prepName string, prepOpen int) {
@@ -439,15 +442,20 @@ func run(c *Case) error {
 	}
 	queues := map[[2]int][]*exp{} // (conn,tag) -> FIFO of expected replies
 	var expectNow int
+	// per connection: replies due while B is held / due in all / received
+	needNow, needAll, gotConn := make([]int, c.NConn), make([]int, c.NConn), make([]int, c.NConn)
 	for _, it := range B {
 		k := [2]int{it.spec.Conn % c.NConn, int(it.spec.Tag)}
 		queues[k] = append(queues[k], &exp{it: it})
+		needAll[k[0]]++
 	}
 	for _, it := range F {
 		k := [2]int{it.spec.Conn % c.NConn, int(it.spec.Tag)}
 		queues[k] = append(queues[k], &exp{it: it})
+		needAll[k[0]]++
 		if !blockedTag[k] {
 			expectNow++
+			needNow[k[0]]++
 		}
 	}
 	got := 0
@@ -463,6 +471,7 @@ func run(c *Case) error {
 		}
 		e := q[0]
 		queues[k] = q[1:]
+		gotConn[conn]++
 		if e.it.anyErr {
 			if m.Type != ref9p.Rerror {
 				return fmt.Errorf("conn %d tag %d: %s names an afid whose Tauth is still held inside AuthInit, and was answered %s", conn, m.Tag, ref9p.TypeName(e.it.msg.Type), ref9p.TypeName(m.Type))
@@ -482,31 +491,41 @@ func run(c *Case) error {
 		got++
 		return nil
 	}
-	// poll all connections until expectNow replies arrived
-	t0 := time.Now()
-	for got < expectNow {
-		progress := false
-		for i, cl := range cls {
-			for {
-				f, err := cl.RecvRaw(200 * time.Microsecond)
-				if err == rawc.ErrTimeout {
-					break
-				}
-				if err != nil {
-					return fmt.Errorf("conn %d ended: %v", i, err)
-				}
-				progress = true
-				if err := take(i, f); err != nil {
-					return err
+	// wait, connection by connection, until the replies that are due have arrived (a
+	// read returns as soon as a frame is there; the 50 ms only bound the wait on a
+	// connection on which nothing comes, so that the others are looked at too)
+	collect := func(need []int, total int, what func() error) error {
+		t0 := time.Now()
+		for got < total {
+			progress := false
+			for i, cl := range cls {
+				for gotConn[i] < need[i] {
+					f, err := cl.RecvRaw(50 * time.Millisecond)
+					if err == rawc.ErrTimeout {
+						break
+					}
+					if err != nil {
+						return fmt.Errorf("conn %d ended: %v", i, err)
+					}
+					progress = true
+					if err := take(i, f); err != nil {
+						return err
+					}
 				}
 			}
+			if !progress && time.Since(t0) > deadline {
+				return what()
+			}
+			if progress {
+				t0 = time.Now()
+			}
 		}
-		if !progress && time.Since(t0) > deadline {
-			return hang("only %d of %d independent requests were answered while %d requests are held in the implementation", got, expectNow, len(B))
-		}
-		if progress {
-			t0 = time.Now()
-		}
+		return nil
+	}
+	if err := collect(needNow, expectNow, func() error {
+		return hang("only %d of %d independent requests were answered while %d requests are held in the implementation", got, expectNow, len(B))
+	}); err != nil {
+		return err
 	}
 	// nothing of B (or queued behind B) may have been answered
 	for _, it := range B {
@@ -524,30 +543,10 @@ func run(c *Case) error {
 		}
 	}
 	S.ReleaseAll()
-	t0 = time.Now()
-	for got < total {
-		progress := false
-		for i, cl := range cls {
-			for {
-				f, err := cl.RecvRaw(200 * time.Microsecond)
-				if err == rawc.ErrTimeout {
-					break
-				}
-				if err != nil {
-					return fmt.Errorf("conn %d ended: %v", i, err)
-				}
-				progress = true
-				if err := take(i, f); err != nil {
-					return err
-				}
-			}
-		}
-		if !progress && time.Since(t0) > deadline {
-			return hang("only %d of %d requests were answered after everything was released", got, total)
-		}
-		if progress {
-			t0 = time.Now()
-		}
+	if err := collect(needAll, total, func() error {
+		return hang("only %d of %d requests were answered after everything was released", got, total)
+	}); err != nil {
+		return err
 	}
 	// 4. the log: members of a tag group are executed one at a time in arrival order
 	type ev struct{ enter, answer int64 }
@@ -654,6 +653,7 @@ func execute(test string, c *Case) error {
 	err := run(c)
 	if h, ok := err.(*hangErr); ok {
 		if h.blocked != "" {
+			culpritHangs++
 			return fmt.Errorf("%s; goroutines blocked inside go9p:\n%s", h.msg, h.blocked)
 		}
 		hangs++
@@ -984,6 +984,19 @@ func TestReplay(t *testing.T) {
 }
 
 func replayEnv(t *testing.T, e *hx.Envelope, times int) {
+	if e.Test == "steps" || e.Test == "flushwaiters" || e.Test == "reversion" {
+		var c SCase
+		if err := json.Unmarshal(e.Case, &c); err != nil {
+			t.Fatalf("bad case: %v", err)
+		}
+		for i := 0; i < times; i++ {
+			if err := executeSteps(e.Test, &c); err != nil {
+				hx.Violation(e.Test, &c, err.Error())
+				t.Fatalf("%v", err)
+			}
+		}
+		return
+	}
 	var c Case
 	if err := json.Unmarshal(e.Case, &c); err != nil {
 		t.Fatalf("bad case: %v", err)
